@@ -6,6 +6,7 @@ from pathlib import Path
 REPO = Path(os.environ.get("SPOX_REPO", "/work/repo-c05"))
 ROOT = Path(__file__).resolve().parent.parent
 U = "src/spox/_utils.py"
+A = "src/spox/_attributes.py"
 N, T, S, SH, V17, ML = ("src/spox/_node.py", "src/spox/_type_system.py", "src/spox/_standard.py", "src/spox/_shape.py",
                         "src/spox/opset/ai/onnx/v17.py", "src/spox/opset/ai/onnx/ml/v3.py")
 def sh(cmd, **kw): return subprocess.run(cmd, shell=True, capture_output=True, text=True, **kw)
@@ -57,6 +58,9 @@ MUTS = {
    [(U, "    return onnx.helper.tensor_dtype_to_np_dtype(ttype)\n", "    if ttype == onnx.TensorProto.BFLOAT16:\n        return np.dtype(np.float16)\n    return onnx.helper.tensor_dtype_to_np_dtype(ttype)\n")],
  "element types: a complex128 operand is declared complex64":
    [(U, "    try:\n        return onnx.helper.np_dtype_to_tensor_dtype(dtype)\n", "    if dtype == np.dtype(np.complex128):\n        return onnx.TensorProto.COMPLEX64\n    try:\n        return onnx.helper.np_dtype_to_tensor_dtype(dtype)\n")],
+ "attribute spellings: a list attribute keeps the caller's iterable (a one-shot generator is empty when the node is written)":
+   [(A, "            value=value if isinstance(value, _Ref) else tuple(value), name=name\n", "            value=value, name=name\n"),
+    (A, "        return cls(tuple(value), name) if value is not None else None\n", "        return cls(value, name) if value is not None else None\n")],
  "unk_ (one underscore) prefix stripped: a user's symbolic dimension unk_1 is dropped":
    [(S, "lambda x: x.startswith(\"unk__\")", "lambda x: x.startswith(\"unk_\")")],
 }
